@@ -363,6 +363,72 @@ def check_result(src, sel, r, deep=True):
     return None
 
 
+def second_level(ck, src, r, case):
+    """a subset of a subset (objects derived from derived objects): the faces of the second-level result are the faces
+    rec1[rec2[k]] of the ORIGINAL source, with unchanged corner positions, and its derived tables meet C02/C03 again"""
+    rng = ck.rng
+    try:
+        rec1 = [int(x) for x in r._ds["subgrid_face_indices"].values]
+    except Exception:
+        return
+    if len(rec1) < 2:
+        return
+    how = rng.choice(["face", "face", "node", "edge"])
+    try:
+        if how == "face":
+            idx2 = rng.sample(range(len(rec1)), rng.randrange(1, len(rec1) + 1))
+            r2 = r.isel(n_face=idx2)
+            want = [rec1[i] for i in idx2]
+        elif how == "node":
+            n0 = rng.randrange(r.n_node)
+            r2 = r.isel(n_node=[n0])
+            rt = r.face_node_connectivity.values.tolist()
+            want = None
+            touching = sorted(k for k, row in enumerate(rt) if n0 in [x for x in row if x != FILL])
+        else:
+            e0 = rng.randrange(r.n_edge)
+            r2 = r.isel(n_edge=[e0])
+            a, b = [int(x) for x in r.edge_node_connectivity.values[e0]]
+            rt = r.face_node_connectivity.values.tolist()
+            want = None
+            touching = []
+            for k, row in enumerate(rt):
+                c = [x for x in row if x != FILL]
+                if any({c[j], c[(j + 1) % len(c)]} == {a, b} for j in range(len(c))):
+                    touching.append(k)
+        rec2 = [int(x) for x in r2._ds["subgrid_face_indices"].values]
+        if want is not None:
+            if rec2 != idx2:
+                ck.fail("face_order", dict(case, second_level=how), {"kind": "second_level:" + how})
+                return
+        else:
+            if sorted(rec2) != touching or len(set(rec2)) != len(rec2):
+                ck.fail("selected_faces_" + how, dict(case, second_level=how), {"kind": "second_level:" + how})
+                return
+        rt2 = r2.face_node_connectivity.values.tolist()
+        lon2, lat2 = r2.node_lon.values, r2.node_lat.values
+        for k, i2 in enumerate(rec2):
+            pos = [(float(lon2[n]), float(lat2[n])) for n in rt2[k] if n != FILL]
+            if pos != src.face_pos(rec1[i2]):
+                ck.fail("corner_positions", dict(case, second_level=how), {"kind": "second_level:" + how})
+                return
+        e = r2.edge_node_connectivity.values.tolist()
+        bad = c02.spec_check(rt2, e, r2.face_edge_connectivity.values.tolist(), r2.n_nodes_per_face.values.tolist(), int(r2.n_edge))
+        if bad:
+            ck.fail("derived_" + bad, dict(case, second_level=how), {"kind": "second_level:" + how})
+            return
+        out = {"edge_node": e, "node_face": r2.node_face_connectivity.values.tolist(),
+               "edge_face": r2.edge_face_connectivity.values.tolist(), "face_face": r2.face_face_connectivity.values.tolist(),
+               "holes": r2.hole_edge_indices.values.tolist(), "dtype": {"node_face": "intp", "edge_face": "intp", "face_face": "intp"}}
+        bad = c03.spec_check(rt2, r2.n_node, out)
+        if bad:
+            ck.fail("derived_" + bad, dict(case, second_level=how), {"kind": "second_level:" + how})
+            return
+        ck.extra["second_level_selections"] = ck.extra.get("second_level_selections", 0) + 1
+    except Exception as ex:
+        ck.fail("selection_raises", dict(case, second_level=how), {"kind": "second_level:" + how}, detail=repr(ex))
+
+
 def data_checks(ck, src, g, sel, case):
     """data sliced with the grid stay attached to the same physical faces / nodes / edges"""
     import uxarray as ux
@@ -506,6 +572,8 @@ def main(ck):
                 except Exception as ex:
                     ck.fail("selection_raises", case, {"kind": sel["kind"], "fresh": True}, detail=repr(ex))
             data_checks(ck, src, g, sel, case)
+            if rng.random() < 0.5:
+                second_level(ck, src, r, case)
             # model inputs
             rec_f = [int(x) for x in r._ds["subgrid_face_indices"].values]
             lines_slice.append(sx([src.table, rec_f]))
